@@ -215,6 +215,8 @@ def run(chk):
             chk.bad('C03-R2', 'Context::is_super_pred_of', inst,
                     'the %s arm iterates the %s side and searches the %s side (is_super_pred_of(super, sub) argument order ok: %s); for %s the outer quantifier must range over the %s side'
                     % (inst, outer, inner, order_ok, 'conjunctions' if kind == 'And' else 'disjunctions', want_outer), FILE, arm['l'])
+    from sa.props.c32 import combinator_rule
+    combinator_rule(chk, fx, rid='C03-comb')      # a refinement written `P and Q` must keep both conjuncts: the subtype test is only as sound as the predicate it is given
     return ('Row-by-row soundness of the comparison-atom arms of Context::is_super_pred_of under the three-orderings model (bodies recognised from typed HIR; the truth table of '
             'TyParamOrdering::is_lt/canbe_le/... is read from the source), and the quantifier structure of the And/Or arms. reduce_preds, Not, General* and unification are not decided.'), {}
 
